@@ -82,7 +82,9 @@ def er_facts(F, S):
                 good = False
                 continue
             summ = info["summaries"].get(lvs[0][2])
-            chain_ok = isinstance(summ, tuple) and summ[0] == "pick" and summ[1] == prev_term and set(summ[2]) == {elems[0]} and summ[4] == elems[0]
+            if isinstance(summ, tuple):
+                summ = typestate.canon_state(F, "EfficiencyRatio", summ)   # loop summaries are stored raw: same spelling as the terms
+            chain_ok = isinstance(summ, tuple) and summ[0] == "pick" and (summ[1] == prev_term or equal(summ[1], prev_term)[0]) and set(summ[2]) == {elems[0]} and summ[4] == elems[0]
             if not chain_ok:
                 good = False
                 S.bad("O4", "er-chain", fn.label, "%s: in the volatility scan `previous` is %s (seed %s); it must start at the reference value and become each visited element in turn"
